@@ -210,6 +210,100 @@ class Inliner:
                        "desugared": decl}
         return [some_bb]
 
+    ARRAY_ITER = M.IDENTITY_CALLS + ("[T]>::iter", "IntoIterator::into_iter", "iter::Iterator::by_ref", "[T; N]>::iter", "array::<impl [T; N]>::iter")
+
+    def _unroll_array_search(self, out, blk, t):
+        """`[a, b, c].iter().find(p)` / `.any(p)` / `.all(p)` over an array literal with a closure literal: the elements are tried in
+        order, which is what the call does. The call becomes the chain of `p(&a)`, `p(&b)`, .. (ordinary calls of the closure, which
+        the inliner takes in); tables of rows that a check walks through are then straight-line code."""
+        f = t.get("func") or {}
+        decl = f.get("fn_path") or ""
+        kind = next((k for k in ("find", "any", "all") if decl.endswith("iter::Iterator::" + k)), None)
+        if kind is None or len(t.get("args", [])) != 2 or t.get("target") is None or (t.get("dest") or {}).get("proj"):
+            return None
+        B = M.Body(out)
+        os_ = M.trace(B, t["args"][0], self.ARRAY_ITER)
+        if len(os_) != 1 or os_[0].kind != "aggregate" or os_[0].rv.get("ak") != "array" or [p_ for p_ in (os_[0].proj or []) if p_ != "deref"]:
+            return None
+        elems = os_[0].rv["ops"]
+        if not (1 <= len(elems) <= 8):
+            return None
+        clo = t["args"][1]
+        if clo.get("k") not in ("copy", "move") or clo["p"].get("proj"):
+            return None
+        cs_ = M.trace(B, clo, M.IDENTITY_CALLS)
+        if len(cs_) != 1 or cs_[0].kind != "aggregate" or not cs_[0].rv.get("closure"):
+            return None
+        m = out["mir"]
+        sp = t.get("sp")
+
+        def local(ty):
+            m["locals"].append({"i": len(m["locals"]), "ty": ty, "user": False, "from": "unrolled " + kind})
+            return len(m["locals"]) - 1
+
+        def block(stmts, term):
+            nb = {"i": len(m["blocks"]), "stmts": stmts, "term": term}
+            if blk.get("from"):
+                nb["from"] = blk["from"]
+            m["blocks"].append(nb)
+            return nb["i"]
+        dest, target = copy.deepcopy(t["dest"]), t["target"]
+        # the block that runs when no element made the closure decide
+        if kind == "find":
+            end_rv = {"k": "aggregate", "ak": "adt", "adt": "std::option::Option", "variant": "None", "ops": []}
+        else:
+            end_rv = {"k": "use", "op": {"k": "const", "ty": "bool", "bits": 1 if kind == "all" else 0, "text": "true" if kind == "all" else "false"}}
+        nxt = block([{"k": "assign", "p": copy.deepcopy(dest), "rv": end_rv, "sp": sp}], {"k": "goto", "target": target, "sp": sp})
+        revisit = []
+        for el in reversed(elems):
+            if el.get("k") in ("copy", "move"):
+                el_place = copy.deepcopy(el["p"])
+                pre = []
+            else:
+                tmp = local("?")
+                el_place = {"l": tmp}
+                pre = [{"k": "assign", "p": {"l": tmp}, "rv": {"k": "use", "op": copy.deepcopy(el)}, "sp": sp}]
+            r, rr, tup, cr, res = local("&elem"), local("&&elem"), local("(arg,)"), local("&mut closure"), local("bool")
+            hit_rv = ({"k": "aggregate", "ak": "adt", "adt": "std::option::Option", "variant": "Some", "fields": ["0"], "ops": [{"k": "copy", "p": {"l": r}}]} if kind == "find"
+                      else {"k": "use", "op": {"k": "const", "ty": "bool", "bits": 0 if kind == "all" else 1, "text": "false" if kind == "all" else "true"}})
+            hit = block([{"k": "assign", "p": copy.deepcopy(dest), "rv": hit_rv, "sp": sp}], {"k": "goto", "target": target, "sp": sp})
+            # find / any stop at the first `true`, all stops at the first `false`
+            stop_on = 0 if kind == "all" else 1
+            sw = block([], {"k": "switch", "discr": {"k": "move", "p": {"l": res}}, "targets": [[0, hit if stop_on == 0 else nxt]],
+                            "otherwise": nxt if stop_on == 0 else hit, "sp": sp, "unrolled": decl})
+            arg = {"k": "move", "p": {"l": rr}} if kind == "find" else {"k": "copy", "p": {"l": r}}
+            stmts = pre + [
+                {"k": "assign", "p": {"l": r}, "rv": {"k": "ref", "bk": "Shared", "p": el_place}, "sp": sp},
+                {"k": "assign", "p": {"l": rr}, "rv": {"k": "ref", "bk": "Shared", "p": {"l": r}}, "sp": sp},
+                {"k": "assign", "p": {"l": tup}, "rv": {"k": "aggregate", "ak": "tuple", "ops": [arg]}, "sp": sp},
+                {"k": "assign", "p": {"l": cr}, "rv": {"k": "ref", "bk": "Shared", "p": copy.deepcopy(clo["p"])}, "sp": sp},
+            ]
+            call = block(stmts, {"k": "call", "func": {"k": "const", "ty": "unrolled", "fn_path": "std::ops::FnMut::call_mut", "gargs": [], "text": "FnMut::call_mut"},
+                                 "args": [{"k": "move", "p": {"l": cr}}, {"k": "move", "p": {"l": tup}}], "dest": {"l": res}, "target": sw, "sp": sp, "fn_sp": t.get("fn_sp")})
+            revisit.append(call)
+            nxt = call
+        blk["term"] = {"k": "goto", "target": nxt, "sp": sp, "unrolled": decl}
+        return revisit
+
+    def _indirect_callee(self, out, t):
+        """a call through a function pointer / callable local that is, on every path, one closure literal of this body (a table row
+        `("minInclusive", bound, |value, min| value < min)` called as `violated(value, bound)`): (closure path, fact, argument operands)"""
+        f = t.get("func") or {}
+        if f.get("k") not in ("copy", "move"):
+            return None
+        os_ = M.trace(M.Body(out), f, M.IDENTITY_CALLS)
+        if len(os_) != 1 or os_[0].kind != "aggregate" or not os_[0].rv.get("closure") or [p_ for p_ in (os_[0].proj or []) if p_ != "deref"]:
+            return None
+        if os_[0].rv.get("ops"):
+            return None      # only closures without captures coerce to function pointers
+        cpath = os_[0].rv["closure"]
+        cb = self.crate.body(cpath)
+        if cb is None or not cb.get("mir") or cb["mir"].get("coroutine") or cpath in self.rec:
+            return None
+        if cb["mir"]["arg_count"] - 1 != len(t.get("args", [])):
+            return None
+        return cpath, cb, list(t["args"])
+
     def _callee_fact(self, t):
         f = t.get("func") or {}
         if f.get("k") != "const":
@@ -241,13 +335,28 @@ class Inliner:
                 continue
             if self.closures:
                 again = self._desugar_option_predicate(out, blk, t)
+                if again is None:
+                    again = self._unroll_array_search(out, blk, t)
                 if again is not None:
                     work.extend((b, depth) for b in again)
                     continue
             p, cb = self._callee_fact(t)
             call_args = t.get("args", [])
             awaited = None
-            if cb is None:
+            indirect = None
+            if cb is None and self.closures:
+                indirect = self._indirect_callee(out, t)
+            if indirect is not None:
+                p, cb, rest = indirect
+                # the closure's own environment parameter: an empty closure value, by reference
+                env_l = len(m["locals"])
+                m["locals"].append({"i": env_l, "ty": "{closure env}", "user": False, "from": p})
+                envr = len(m["locals"])
+                m["locals"].append({"i": envr, "ty": "&{closure env}", "user": False, "from": p})
+                blk["stmts"].append({"k": "assign", "p": {"l": env_l}, "rv": {"k": "aggregate", "ak": "closure", "closure": p, "ops": []}, "sp": t.get("sp"), "inl": "env"})
+                blk["stmts"].append({"k": "assign", "p": {"l": envr}, "rv": {"k": "ref", "bk": "Shared", "p": {"l": env_l}}, "sp": t.get("sp"), "inl": "env"})
+                call_args = [{"k": "move", "p": {"l": envr}}] + rest
+            elif cb is None:
                 cc = self._closure_callee(out, t) if self.closures else None
                 if cc is None:
                     awaited = self._await_callee(out, t) if self.closures else None
